@@ -22,6 +22,7 @@ THEOREMS = [
     "TornadoModel.C28.handleDeco_slash_on_same_host",
     "TornadoModel.C28.static_handle_on_same_host",
     "TornadoModel.C28.onSameHost_not_offsite",
+    "TornadoModel.C28.handleDeco_auth_login_url",
 ]
 TRUSTED = [
     "routing through `(.*)`, `/(.*)`, `/*(.*)`, `<prefix>(.*)` is modelled as the captured group (C26.capture); argument decoding as in C26",
@@ -52,7 +53,8 @@ CLAUSES = {
         "static_handle_redirect_same_site + sameSite_iff_onSameHost",
     "never scheme-qualified or protocol-relative": "onSameHost_not_offsite (no `scheme:` prefix, not two leading slash-or-backslash characters, after the "
         "browser's whitespace stripping) + sameSite_not_offsite",
-    "authenticated redirects only to the configured login URL": "login_redirect_is_login_url + quotePlus_encoded (request text below U+0800: only unreserved/%/+ characters after ?next=)",
+    "authenticated redirects only to the configured login URL": "handleDeco_auth_login_url (whole request; the target's characters are bounded by the request-line grammar, host/protocol below U+0800) "
+        "via login_redirect_is_login_url + quotePlus_encoded (only unreserved/%/+ characters after ?next=)",
 }
 PARALLEL = True
 CASE_TIMEOUT = 120
